@@ -294,6 +294,36 @@ def minsertSpacing (i i' : Ins) (colSpacing rowSpacing : Rat) : Rat × Rat :=
 def Ins.xAxis (o : Ocs) (i : Ins) : V3 := V3.add (V3.smul i.rot.x o.ux) (V3.smul i.rot.y o.uy)
 def Ins.yAxis (o : Ocs) (i : Ins) : V3 := V3.add (V3.smul (-i.rot.y) o.ux) (V3.smul i.rot.x o.uy)
 
+/-- `Insert.multi_insert()`: the grid element (col, row) of a MINSERT is the same reference with the insert moved, in the OCS, by
+    the offset (col·column_spacing, row·row_spacing) turned by the rotation (c, s); the scale factors are not applied to the grid -/
+def Ins.gridCell (i : Ins) (col row cs rs : Rat) : Ins :=
+  { i with insert := ⟨i.insert.x + (col * cs * i.rot.x - row * rs * i.rot.y), i.insert.y + (col * cs * i.rot.y + row * rs * i.rot.x),
+                      i.insert.z⟩ }
+
+/-- VERTEX of a 3-D POLYLINE / POLYMESH / POLYFACE: face records carry indices, no location -/
+structure MeshVertex where
+  loc : V3
+  faceRecord : Bool
+deriving DecidableEq, Repr
+
+/-- `Polyline.transform` (not 2-D) = `DXFVertex.transform` on every vertex -/
+def meshTransform (m : M44) (vs : List MeshVertex) : List MeshVertex :=
+  vs.map fun v => if v.faceRecord then v else { v with loc := apply m v.loc }
+
+/-- SHAPE (entities/shape.py): insert is mapped by `m.transform` (the source reads the DXF reference as WCS), the rotation by
+    `transform_deg_angle`, the size as the length of the image of (0, size, 0), the x scale as the length of the image of
+    (xscale, 0, 0) with the sign of the old x scale (`transform_length(…, reflection=xscale)`), thickness by `transform_thickness` -/
+structure Shp where
+  insert : V3
+  rot : V2
+  size : Rat
+  xscale : Rat
+  thickness : Option Rat
+deriving DecidableEq, Repr
+
+def Shp.transform (sqrt : Rat → Rat) (o : OcsT) (s : Shp) : Shp :=
+  ⟨apply o.m s.insert, dir2 o s.rot, o.length sqrt ⟨0, s.size, 0⟩, o.lengthR sqrt ⟨s.xscale, 0, 0⟩ s.xscale, s.thickness.map o.thickness⟩
+
 /-! ## Nested block references (explode.py: virtual_block_reference_entities, any depth) -/
 
 /-- block content: WCS points (standing for every entity that obeys the linear law) and references to other blocks;
